@@ -457,30 +457,31 @@ impl<'a> Runner<'a> {
         self.steps.last().unwrap()
     }
 
-    /// round-robin until a round requests nothing (at most `max_rounds`), then one more round;
-    /// returns the number of steps that belong to the last two rounds
+    /// round-robin until a round requests nothing and changes no peer (at most `max_rounds`), then
+    /// one more round; returns the number of steps that belong to the last two rounds
     pub async fn settle(&mut self, t: i64, max_rounds: usize) -> usize {
         let per_round = self.n * (self.n - 1);
         let mut rounds = 0;
         loop {
-            let mut requested = 0;
+            let mut moved = false;
             for dst in 0..self.n {
                 for src in 0..self.n {
                     if dst != src {
-                        requested += self.exec(Op::Pull { dst, src, t }).await.flag;
+                        let before = self.last_dump(dst);
+                        let s = self.exec(Op::Pull { dst, src, t }).await;
+                        if s.flag != 0 || s.dump.nodes != before.nodes || s.dump.tombs != before.tombs { moved = true; }
                     }
                 }
             }
             rounds += 1;
-            if requested == 0 || rounds >= max_rounds { break; }
+            if !moved || rounds >= max_rounds { break; }
         }
         for dst in 0..self.n {
             for src in 0..self.n {
                 if dst != src { self.exec(Op::Pull { dst, src, t }).await; }
             }
         }
-        rounds += 1;
-        if rounds >= 2 { 2 * per_round } else { per_round }
+        2 * per_round
     }
 
     /// Gallina terms of the steps and the flattened observation
